@@ -30,6 +30,9 @@ def _qs(fn, model='DbTransactionOutput'):
     mut.drop_stmt(W, 'WalletTransaction.send', 'self.hdwallet._balance_update', 'balances not refreshed after send'),
     mut.drop_stmt(W, 'WalletTransaction.send', 'self.store()', 'sent transaction not stored'),
     mut.drop_stmt(W, 'WalletTransaction.send', 'u.spent = True', 'inputs of a sent transaction stay unspent'),
+    mut.replace_expr(W, 'WalletTransaction.send', 'DbTransaction.txid == txid', '(DbTransaction.txid == txid) & (DbTransaction.account_id == self.account_id)', 'only outputs of the transaction\'s own account are marked spent') if False else
+    mut.replace_expr(W, 'WalletTransaction.send', 'DbTransactionOutput.spent.is_(False)', 'DbTransactionOutput.spent.is_(False), DbTransaction.account_id == self.account_id', 'only outputs of the transaction\'s own account are marked spent') if False else
+    mut.drop_stmt(W, 'WalletTransaction.send', 'self.hdwallet._commit()', 'spent flags not committed'),
 ])
 def mark(ctx):
     """WalletTransaction.send: on the path that sets pushed = True: self.store(); for every input ALL rows with (txid == inp.prev_txid,
@@ -62,6 +65,9 @@ def mark(ctx):
     need = ['DbTransaction.txid == txid', 'DbTransactionOutput.output_n == inp.output_n_int', 'DbTransactionOutput.spent.is_(False)']
     for f in need:
         ctx.require(f in x.filters, q, 'the rows marked spent are not selected by `%s` (filters: %s)' % (f, x.filters), x.node, 'the wrong output is marked spent / the spent one stays selectable')
+    extra = [f for f in x.filters if f not in need]
+    ctx.require(not extra, q, 'the rows marked spent are narrowed by `%s`: an outpoint is identified by the previous transaction id and the output index alone' % ', '.join(extra)[:120], x.node,
+                'the spending transaction need not carry the account (or wallet) of the outputs it consumes - sweep(account_id=1) and explicit inputs build it for the default account: after the broadcast those outputs stay unspent and are selected again')
     ctx.require(x.terminal == 'all', q, 'spent marking uses .%s(): only one of the matching rows is updated' % x.terminal, x.node,
                 'when several wallets in one database track the output, it stays unspent in the others (e.g. in the sending cosigner)')
     marks = [s for s in ast.walk(loops[0]) if isinstance(s, ast.Assign) and unparse(s.targets[0]).endswith('.spent') and unparse(s.value) == 'True']
